@@ -298,6 +298,9 @@ def judge_cut(case, meta, k, s, obs):
                 raise Violation("loss.waitclose", f"{where}: channel {ci} waitclose gave {log}")
             if log[0][0] == "remote_error" and not err:
                 raise Violation("loss.waitclose", f"{where}: channel {ci} waitclose raised a RemoteError nobody sent")
+            if e["closed"] is None and log[0][0] != "eof":
+                raise Violation("loss.waitclose-no-eof", f"{where}: channel {ci} was still open when the connection broke, "
+                                f"waitclose() gave {log[0]} instead of raising EOFError")
     want_after = [x for x in obs["after"] if x[1] not in ("OSError",) and x[0] != "hasreceiver"]
     if want_after or ("hasreceiver", False) not in obs["after"]:
         raise Violation("loss.after", f"{where}: after the loss send/remote_exec/newchannel/hasreceiver gave {obs['after']}")
@@ -349,7 +352,10 @@ class Cut(Part):
                     f"--- {n}\n{v}" for n, v in list(e.stacks.items())[:3])), dict(case, k=k)))
                 continue
             except D.StepBudget:
-                ctx.count("inconclusive_runs")
+                # not a time limit: a deterministic count of scheduler operations, ~100x what any of these runs needs
+                viol.append((Violation("loss.no-progress", f"cut after byte {k}: the survivor's threads were still running after "
+                                       f"400000 scheduler operations (a run of this size needs a few thousand): livelock"),
+                             dict(case, k=k)))
                 continue
             except Violation as v:
                 viol.append((v, dict(case, k=k)))
@@ -424,7 +430,8 @@ class CutFocused(Part):
                     v = Violation("loss.blocks-forever", f"cut after byte {k}: blocked {e.blocked}")
                     raise v from None
                 except D.StepBudget:
-                    raise Inconclusive("steps") from None
+                    raise Violation("loss.no-progress", f"cut after byte {k}: still running after 400000 scheduler "
+                                    f"operations: livelock") from None
                 try:
                     judge_cut(case, meta, k, s, obs)
                 except Violation as v:
